@@ -169,6 +169,7 @@ type TopologicalSortIterator struct {
 	invState []int
 	n        int
 	first    bool
+	done     bool
 }
 
 //TopologicalSorts returns an iterator which iterates over all topological sorts of {0, 1, ... , n-1} according to the partial order less. If less(i,j) == true, then this only iterates over permutations where i appears before j.
@@ -202,6 +203,9 @@ func (iter *TopologicalSortIterator) InverseValue() []int {
 
 //Next attempts to advance the iterator to the next permutation, returning true if there is one and false otherwise.
 func (iter *TopologicalSortIterator) Next() bool {
+	if iter.done {
+		return false
+	}
 	if iter.first {
 		iter.first = false
 		return true
@@ -231,6 +235,8 @@ func (iter *TopologicalSortIterator) Next() bool {
 		iter.state[k] = k
 		iter.invState[k] = k
 	}
+	//The state is back at the identity so remember that we have finished.
+	iter.done = true
 	return false
 }
 
@@ -243,6 +249,8 @@ type RestrictedPrefixPermutationIterator struct {
 
 	l []int
 	u []int
+
+	done bool
 }
 
 //RestrictedPrefixPermutations returns an iterator which iterates over all permutations a_1 a_2 ... a_n of {0, ..., n-1} which pass the tests f([]int{a_1}), f([]int{a_1,a_2}) ... f([]int{a_1,...,a_n}).
@@ -267,6 +275,10 @@ func (iter *RestrictedPrefixPermutationIterator) Next() bool {
 	k := n - 1
 	p := 0
 	q := 0
+
+	if iter.done {
+		return false
+	}
 
 	//Initialise
 	if iter.a == nil {
@@ -310,6 +322,7 @@ x5:
 x6:
 	k--
 	if k < 0 {
+		iter.done = true
 		return false
 	}
 	p = iter.u[k]
@@ -330,6 +343,7 @@ type PermutationsByPatternIterator struct {
 	a     []int
 	f     func([]int) bool
 	first bool
+	done  bool
 }
 
 //PermutationsByPattern iterates over all permutations of {0, 1, ..., n -1} which pass the test function f at every step. The iterator starts with the empty permutation. It then does a DFS where the children of a permutation P of length l < n are the permutations of length l + 1 formed by appending a number x in {0, ..., l} and increasing by 1 every entry of P which is at least x. The function f is called at each node of the DFS and the iterator will prune the children of a node v if f(v) is false.
@@ -345,6 +359,9 @@ func (iter *PermutationsByPatternIterator) Value() []int {
 
 //Next attempts to move to the next valid permutation, returning true if one exists and false otherwise.
 func (iter *PermutationsByPatternIterator) Next() bool {
+	if iter.done {
+		return false
+	}
 	//Initialise
 	if iter.a == nil || iter.first {
 		//The first call of Next()
@@ -374,6 +391,7 @@ x2:
 	//Test has failed so we need to increase the state.
 x3:
 	if len(iter.a) == 0 {
+		iter.done = true
 		return false
 	}
 
